@@ -493,7 +493,10 @@ def run(ctx):
     ctx.exhaustive = False
     ctx.extra["exhaustive_subspaces"] = ("every set of cut points of the short streams of exhaustive_cases (2^(n-1) schedules each); "
                                          "every displacement of one segment by <= 3 positions inside its flight for two cut conversations")
-    ctx.prove(["TLX.Props.C05"])
+    import translate                 # decision-logic functions re-translated from the source and proved equal to the model
+    _tm, _tt = translate.wire(ctx, "C05")
+    ctx.prove(["TLX.Props.C05"] + _tm)
+    ctx.require_theorems(_tt)
     ctx.require_theorems(THEOREMS)
     explore(ctx)
     return ctx.finish(search=lambda c: explore(c, scale=3))
